@@ -200,7 +200,7 @@ func (c *Ctx) layersEl(ls []xLayer, depth int) *etree.Element {
 			em.CreateElement("ds:DigestMethod").CreateAttr("Algorithm", *l.digest)
 		}
 	}
-	if l.cert != "" || len(ls) > 1 {
+	if l.cert != "" || len(ls) > 1 || (c.kiExtra != "" && depth == 0) {
 		// the XML-Signature elements under any prefix the document chooses, or in a default namespace
 		dsn := func(local string) string { return "ds:" + local }
 		var ki *etree.Element
@@ -234,6 +234,19 @@ func (c *Ctx) layersEl(ls []xLayer, depth int) *etree.Element {
 				txt = "bm90IGEgY2VydGlmaWNhdGU="
 			}
 			ki.CreateElement(dsn("X509Data")).CreateElement(dsn("X509Certificate")).SetText(txt)
+		}
+		if c.kiExtra != "" && depth == 0 {
+			// references to key material elsewhere: legal KeyInfo content this package does not follow — and must survive
+			switch {
+			case strings.HasPrefix(c.kiExtra, "retrieval:"):
+				rm := ki.CreateElement(dsn("RetrievalMethod"))
+				rm.CreateAttr("URI", strings.TrimPrefix(c.kiExtra, "retrieval:"))
+				rm.CreateAttr("Type", "http://www.w3.org/2001/04/xmlenc#EncryptedKey")
+			case strings.HasPrefix(c.kiExtra, "keyname:"):
+				ki.CreateElement(dsn("KeyName")).SetText(strings.TrimPrefix(c.kiExtra, "keyname:"))
+			default:
+				ki.CreateElement(dsn("KeyValue"))
+			}
 		}
 		if len(ls) > 1 {
 			ki.AddChild(c.layersEl(ls[1:], depth+1))
@@ -1010,6 +1023,41 @@ func (c *Ctx) genC11() {
 				c.count("c11-keyinfo-prefix", pfx+"/"+cert)
 				c.xdecrypt(xKey{kind: "r", id: 1}, ls, nil, "keyinfo-prefix:"+pfx)
 				c.kiPrefix = ""
+			}
+		}
+	}
+	// KeyInfo content that points elsewhere (RetrievalMethod with bare-name, XPointer, bracketed, quoted, empty, remote and
+	// self-referring URIs; KeyName; KeyValue) on data that needs a key the caller did or did not supply: plaintext or an error
+	for _, extra := range []string{"retrieval:#ek", "retrieval:#xpointer(id('ek'))", "retrieval:#ek[1]", "retrieval:#it's", "retrieval:#", "retrieval:", "retrieval:https://keys.example.org/k1",
+		"retrieval:#a]b[", "retrieval:#//EncryptedKey", "keyname:sp key", "keyvalue"} {
+		for _, alg := range []string{uriAES128, uriAES256, uri3DES, uriGCM} {
+			bs, ks := 16, 16
+			switch alg {
+			case uriAES256:
+				ks = 32
+			case uri3DES:
+				bs, ks = 8, 24
+			}
+			ck := c.randBytes(ks)
+			p := []byte("<a>retrieval method</a>")
+			var ct []byte
+			if alg == uriGCM {
+				blk, _ := aes.NewCipher(ck)
+				g, _ := cipher.NewGCM(blk)
+				nonce := c.randBytes(12)
+				ct = append(append([]byte{}, nonce...), g.Seal(nil, nonce, p, nil)...)
+			} else {
+				ct = refCBCEncrypt(ck, bs, c.randBytes(bs), p)
+			}
+			for _, kk := range []xKey{{kind: "b", bytes: ck}, {kind: "r", id: 1}, {kind: "b", bytes: c.randBytes(ks)}} {
+				c.kiExtra = extra
+				c.count("c11-keyinfo-reference", strings.SplitN(extra, ":", 2)[0]+"/"+kk.kind)
+				var expect []byte
+				if kk.kind == "b" && bytes.Equal(kk.bytes, ck) {
+					expect = p
+				}
+				c.xdecrypt(kk, []xLayer{{alg: sp(alg), cipher: "v", ct: ct}}, expect, "keyinfo-reference")
+				c.kiExtra = ""
 			}
 		}
 	}
